@@ -251,7 +251,16 @@ pub enum Act {
     /// user transfer: native `Transfer` with funds, or cw20 `Send{TransferMsg}` through the token
     Transfer { user: u8, tok: Tok, ch: u8, amt: Amt, timeout: Option<u64>, memo: Option<String> },
     /// incoming packet on local channel `ch`
-    Recv { ch: u8, den: Den, amt: Amt, to: Rcv, fault: Fault },
+    Recv {
+        ch: u8,
+        den: Den,
+        amt: Amt,
+        to: Rcv,
+        fault: Fault,
+        /// memo field of the incoming ICS-20 packet
+        #[serde(default)]
+        memo: Option<String>,
+    },
     /// incoming packet whose data is not an ICS-20 packet
     RecvRaw { ch: u8, raw: u8 },
     /// acknowledgement for the `pkt`-th packet of the (sorted) outbox
@@ -286,9 +295,9 @@ impl std::fmt::Debug for Act {
                 timeout,
                 memo
             ),
-            Act::Recv { ch, den, amt, to, fault } => write!(
+            Act::Recv { ch, den, amt, to, fault, memo } => write!(
                 f,
-                "RecvPacket{{on={}, denom={:?} = \"{}\", amount={}, receiver={}, payout_fault={:?}}}",
+                "RecvPacket{{on={}, denom={:?} = \"{}\", amount={}, receiver={}, payout_fault={:?}, memo={memo:?}}}",
                 local_chan(*ch),
                 den,
                 den.string(*ch),
@@ -336,6 +345,9 @@ pub struct Old {
     pub counted_b: Vec<(Tok, u128)>,
     /// a refused migration is not a finding for this storage (the property is one-directional here)
     pub may_refuse: bool,
+    /// denominations of the first channel whose entry exists with outstanding == 0 and this
+    /// total_sent (everything sent was redeemed back)
+    pub drained: Vec<(Tok, u128)>,
     /// sends in flight (escrowed, packet pending, not yet counted by the old logic): (user, token, amount)
     pub inflight: Vec<(u8, Tok, u128)>,
 }
@@ -368,6 +380,8 @@ pub struct Cfg {
     pub bad: Vec<Den>,
     pub bad_amounts: Vec<u128>,
     pub receivers: Vec<Rcv>,
+    /// non-empty memos carried by redeemable incoming packets (in addition to no memo)
+    pub recv_memos: Vec<&'static str>,
     /// receivers named by packets with a non-redeemable denomination
     pub bad_receivers: Vec<Rcv>,
     pub raws: Vec<u8>,
@@ -408,6 +422,7 @@ impl Cfg {
             bad: vec![],
             bad_amounts: vec![1],
             receivers: vec![Rcv::User(B), Rcv::Invalid],
+            recv_memos: vec![],
             bad_receivers: vec![Rcv::User(B)],
             raws: vec![0, 1],
             ack_kinds: vec![AckKind::Success, AckKind::Error, AckKind::Garbage],
@@ -434,6 +449,9 @@ impl Cfg {
         }
         if let Some(o) = &self.old {
             for (t, _) in o.counted.iter().chain(o.counted_b.iter()) {
+                d.insert(t.denom());
+            }
+            for (t, _) in &o.drained {
                 d.insert(t.denom());
             }
             for (_, t, _) in &o.inflight {
@@ -1051,6 +1069,18 @@ impl Ics20Model {
         }
         let inst = w.contracts.get_mut(&ics).unwrap();
         cw2::set_contract_version(&mut inst.store, "crates.io:cw20-ics20", old.version).map_err(|e| e.to_string())?;
+        for (t, total) in &old.drained {
+            CHANNEL_STATE
+                .save(
+                    &mut inst.store,
+                    (&local_chan(cfg.first_chan), &t.denom()),
+                    &ChannelState {
+                        outstanding: Uint128::zero(),
+                        total_sent: Uint128::new(*total),
+                    },
+                )
+                .map_err(|e| e.to_string())?;
+        }
         let per_chan = [(cfg.first_chan, &old.counted), (cfg.first_chan + 1, &old.counted_b)];
         for (ch, list) in per_chan {
             for (t, x) in list {
@@ -1145,6 +1175,7 @@ fn label(a: &Act) -> String {
                 k.to_string()
             }
         }
+        Act::Recv { den: Den::Proper(Base::Tok(_)), memo: Some(_), .. } => "Recv.voucher+memo".into(),
         Act::Recv { den: Den::Proper(Base::Tok(_)), fault: Fault::None, .. } => "Recv.voucher".into(),
         Act::Recv { den: Den::Proper(Base::Tok(_)), .. } => "Recv.voucher+payout-fault".into(),
         Act::Recv { .. } => "Recv.foreign-or-malformed-denom".into(),
@@ -1382,7 +1413,21 @@ impl Model for Ics20Model {
                                 amt: Amt(amt),
                                 to,
                                 fault: f,
+                                memo: None,
                             });
+                        }
+                        // the same packet carrying a memo (no fault on top: the memo is the variation)
+                        if payable {
+                            for m in &cfg.recv_memos {
+                                out.push(Act::Recv {
+                                    ch,
+                                    den: Den::Proper(*b),
+                                    amt: Amt(amt),
+                                    to,
+                                    fault: Fault::None,
+                                    memo: Some(m.to_string()),
+                                });
+                            }
                         }
                     }
                 }
@@ -1396,6 +1441,7 @@ impl Model for Ics20Model {
                             amt: Amt(amt),
                             to,
                             fault: Fault::None,
+                            memo: None,
                         });
                     }
                 }
@@ -1578,13 +1624,13 @@ impl Model for Ics20Model {
             Act::Recv { .. } | Act::RecvRaw { .. } => {
                 may_move_tokens = true;
                 let (ch, data, den, amt, to, fault) = match a {
-                    Act::Recv { ch, den, amt, to, fault } => {
+                    Act::Recv { ch, den, amt, to, fault, memo } => {
                         let pk = Ics20Packet {
                             amount: Uint128::new(amt.0),
                             denom: den.string(*ch),
                             receiver: to.string(),
                             sender: "remote-sender".into(),
-                            memo: None,
+                            memo: memo.clone(),
                         };
                         (*ch, to_json_vec(&pk).unwrap(), Some(*den), amt.0, Some(*to), *fault)
                     }
